@@ -234,10 +234,13 @@ def check(model, rep, tier):
                     ok = False
                     det += f"; column `{k}` is written from {v!r} (expected {want_base.name}{' as float32' if want_base.f32 else ''}[:, {want_idx}])"
             MT = Matcher(f)
-            wc = [c for c in calls_in(f) if isinstance(c.func, ast.Attribute) and c.func.attr == "with_columns"]
+            wc = [c for c in calls_in(f) if isinstance(c.func, ast.Attribute) and c.func.attr in ("with_columns", "hstack")]
             if not (len(wc) == 1 and (MT.all_of(["$df = pl.DataFrame($$d)", "$df = $df.with_columns(list(self._features))", "return $df"])[0] or
                                       MT.all_of(["$df = pl.DataFrame($$d)", "return $df.with_columns(list(self._features))"])[0] or
-                                      MT.all_of(["$df = pl.DataFrame($$d)", "$out = $df.with_columns(list(self._features))", "return $out"])[0])):
+                                      MT.all_of(["$df = pl.DataFrame($$d)", "$out = $df.with_columns(list(self._features))", "return $out"])[0] or
+                                      # DataFrame.hstack appends the columns of another frame of the same height in order (names are disjoint: guard obligation)
+                                      MT.all_of(["$df = pl.DataFrame($$d)", "return $df.hstack(self._features)"])[0] or
+                                      MT.all_of(["$df = pl.DataFrame($$d)", "$df = $df.hstack(self._features)", "return $df"])[0])):
                 ok = False
                 det += "; features are not appended with df.with_columns(list(self._features))"
         rep.ob("S10", f.anchor, "to_dataframe writes pos[:, 0..2] as z, y, x and rotvec[:, 0..2] (float32) as zvec, yvec, xvec, then the features", ok, det,
